@@ -88,6 +88,9 @@ func rel(p string) string {
 var errnoByName = map[string]syscall.Errno{
 	"ENOSPC": syscall.ENOSPC, "EIO": syscall.EIO, "EMFILE": syscall.EMFILE, "ENFILE": syscall.ENFILE, "ENOENT": syscall.ENOENT,
 	"EACCES": syscall.EACCES, "ENOTDIR": syscall.ENOTDIR, "EXDEV": syscall.EXDEV, "EEXIST": syscall.EEXIST, "EINTR": syscall.EINTR,
+	"EBUSY": syscall.EBUSY, "EPERM": syscall.EPERM, "EROFS": syscall.EROFS, "EINVAL": syscall.EINVAL, "ENOSYS": syscall.ENOSYS,
+	"EDQUOT": syscall.EDQUOT, "EFBIG": syscall.EFBIG, "ENOMEM": syscall.ENOMEM, "EISDIR": syscall.EISDIR, "ELOOP": syscall.ELOOP,
+	"ENAMETOOLONG": syscall.ENAMETOOLONG, "ENOTEMPTY": syscall.ENOTEMPTY, "EMLINK": syscall.EMLINK, "ETXTBSY": syscall.ETXTBSY,
 }
 
 var readOnly = map[string]bool{"lstat": true, "stat": true, "open": true, "read": true, "opendir": true}
